@@ -422,9 +422,15 @@ func (a *w3Analysis) crashStates(files []*w3File, written map[int64]*w3Written, 
 			list = append(list, o)
 		}
 		sort.Ints(list)
+		// while a segment is being written its header says duration 0: the duration is patched in
+		// place when the segment is closed, after the last part
+		unp := append([]byte(nil), f.data...)
+		if off := f.init.mvhdDurOff; off > 0 && off+4 <= len(unp) {
+			copy(unp[off:off+4], []byte{0, 0, 0, 0})
+		}
 		for _, j := range list {
 			// truncated tail
-			a.oneState(files, i, f.data[:j], fmt.Sprintf("%s truncated at %d/%d", f.name, j, len(f.data)), checkServed)
+			a.oneState(files, i, unp[:j], fmt.Sprintf("%s truncated at %d/%d", f.name, j, len(f.data)), checkServed)
 			// zero-filled tail up to the end of the write that was in progress
 			nb := len(f.data)
 			for _, bd := range f.bounds {
@@ -435,7 +441,7 @@ func (a *w3Analysis) crashStates(files []*w3File, written map[int64]*w3Written, 
 			}
 			if nb > j {
 				mod := make([]byte, nb)
-				copy(mod, f.data[:j])
+				copy(mod, unp[:j])
 				a.oneState(files, i, mod, fmt.Sprintf("%s written up to %d, zero-filled up to %d", f.name, j, nb), checkServed)
 			}
 			if simrt.Aborted() || len(a.violations) > 3 {
